@@ -6,6 +6,7 @@
 package refipfix
 
 import (
+	"bytes"
 	"encoding/binary"
 	"errors"
 	"fmt"
@@ -251,6 +252,26 @@ func SplitRecords(body []byte, widths []uint16) (recs [][][]byte, padding int, o
 		}
 		recs = append(recs, rec)
 	}
+}
+
+// SameBody compares the content of a captured set with the reference encoding of what the
+// application supplied. RFC 7011 3.3.2 lets an exporter pad a set: zero octets after the last
+// record, fewer than the shortest record the template allows (minRec; 4 for template sets, a
+// template record header). Padding is therefore not a difference; anything else is.
+func SameBody(got, want []byte, minRec int) bool {
+	if len(got) < len(want) || !bytes.Equal(got[:len(want)], want) {
+		return false
+	}
+	pad := got[len(want):]
+	if len(pad) >= minRec && len(pad) > 0 {
+		return false
+	}
+	for _, b := range pad {
+		if b != 0 {
+			return false
+		}
+	}
+	return true
 }
 
 // ---- encoders ----
